@@ -57,7 +57,8 @@ pub struct RespCase {
     /// order of the builder calls (semantically neutral): bit0 = header operations before
     /// `boxed()`, bit1 = boxed twice, bits2-3 = where the chunking threshold is set (1 = before
     /// boxing, 2 = right after boxing, else last), bit4 = constructed with another status which
-    /// `with_status_code` then replaces (bit5: after boxing)
+    /// `with_status_code` then replaces (bit5: after boxing), bit6/bit7 = the later half / all of
+    /// the constructor's headers are handed over through the `additional_headers` channel
     #[serde(default)]
     pub plan: u8,
 }
@@ -571,6 +572,8 @@ fn q_strategy() -> BoxedStrategy<String> {
         1 => Just(";q=0.0".to_string()),
         1 => proptest::sample::select(vec![";q=", ";q=abc", ";q=1.5", ";q=-1", ";q =0.5", ";Q=0.5", ";q=NaN", ";q=inf", ";q=1e3", ";q=0.5;q=0.1"]).prop_map(|s| s.to_string()),
         1 => Just(";foo=bar".to_string()),
+        // degenerate parameters: empty, one character, no value, whitespace only
+        1 => proptest::sample::select(vec![";", ";a", "; ", ";;", ";=", ";q", ";\t", "; ;q=0.5", ";x;q=0.3"]).prop_map(|s| s.to_string()),
     ]
     .boxed()
 }
